@@ -162,10 +162,11 @@ ADDED3 = {
  "C13": " The look-ahead that asks for more input is taken by the expression parser only in the arm of an opening token or at depth above 0 (C13-TOPEND); a nested expression is read only by a routine that waits for a token (C13-OPERAND); every direct look-ahead inside an open construct tests for TokenEnd (C13-PEEKEND).",
  "C14": " Symbol keys are matched by number through a comparator that decides two symbols itself (C14-SYM); no hash is given another hash's order list or buckets (C14-SHARE).",
  "C15": " The operand reader of ~ ~@ ^ % drops comments (C15-OPERAND); defmac refuses every head the call generator's switch compiles itself (C15-FORMS); the prefix runes are sign contexts (C15-SIGN).",
- "C16": " The value pushed for a compiled function has passed through RValue in the caller, and so has the value a forced promise memoises (C16-DOT); laziness is asked for the parameter a label names (C16-NAMED).",
+ "C16": " The value pushed for a compiled function has passed through RValue in the caller, and so has the value a forced promise memoises (C16-DOT); laziness is asked for the parameter a label names (C16-NAMED); every routine that compiles a named function body makes the function known to the generator first, and the tail path prepares its arguments for the function being compiled (C16-REG, C16-SELFARGS).",
  "C17": " Instance type and constructor definition are not looked up by name in the package-level registry (C17-IDENT: two recorded findings).",
  "C18": " The captured scopes searched for a dot path handed to a builtin are those of the calling compiled function (C18-LEXFN).",
  "C19": " Symbol keys are matched by number (C19-KEY); Compare does not dereference symbol operands (C19-DEREF: recorded finding).",
+ "C20": " No text returned to the script is formatted with %p, with %v/%#v of a script value or of a type holding nested pointers, or from runtime.Stack (C20-ADDR; five diagnostic dumps exempt by table, the stack trace in the error text of a panicking builtin is a recorded finding).",
 }
 for k,v in ADDED3.items():
     CLAIMS[k]["text"] = CLAIMS[k]["text"] + v
